@@ -118,7 +118,16 @@ def _nominal_and_modifiers_from_spec(modifier_set, config, spec, batch_size):
     helper = {}
     _keys_seen = set()
     for c in spec['channels']:
+        if c['name'] in helper:
+            raise exceptions.InvalidModel(
+                f"Multiple channels named {c['name']} were found. Channel names must be unique."
+            )
+        helper[c['name']] = {}
         for s in c['samples']:
+            if s['name'] in helper[c['name']]:
+                raise exceptions.InvalidModel(
+                    f"Multiple samples named {s['name']} were found in {c['name']} channel. Sample names must be unique within a channel."
+                )
             moddict = {}
             for x in s['modifiers']:
                 if x['type'] not in modifier_set:
